@@ -21,6 +21,7 @@ RULE = ("(a) header/frame codec: every 12-bit origin and destination, ids incl. 
         "of the reference frames and a True result requires that the receiver accepted all of "
         "them. Non-trivial: bytes were compared; distinct = distinct (part, length, type, "
         "field class).")
+RULE += (" Later rounds added: traffic_direct writes, one-character string types, re-used and re-addressed headers, loop-back frames, kept bytearray messages re-sent with frames received in between, outages at a chosen fragment.")
 REQUIRED = {"pack_bytes": 10000, "unpack_roundtrip": 10000, "short_buffer_refused": 50,
             "onair_frames_vs_reference": 200, "tmrh_reassembly": 200, "caller_header_type": 200,
             "caller_header_type_routed": 10, "session_frames_vs_reference": 1000,
